@@ -67,12 +67,35 @@ fn parse_args() -> Args {
     a
 }
 
+/// Program number `k` of a shard and its run options: a function of (property, config, seed, k) only.
+fn random_program(args: &Args, k: usize, prng: &mut Rng, mode: SchedMode) -> (Program, RunOpts) {
+    let pf = props::profile_for(&args.prop, args.cancelable, prng);
+    let prog = if (args.prop == "C18" && k % 100 == 50) || (args.prop == "C17" && k % 500 == 250) {
+        templates::long_local_program(args.cancelable, prng)
+    } else if args.prop == "C09" {
+        Gen::new(prng, &pf, k as u64).generate_overload()
+    } else {
+        Gen::new(prng, &pf, k as u64).generate()
+    };
+    let opts = RunOpts { max_cycles: 4, max_steps: 60, park_in_stepped: prng.chance(1, 3), no_flush: mode == SchedMode::Stepped, ..RunOpts::default() };
+    (prog, opts)
+}
+
 fn ops_text(prog: &Program) -> Vec<String> {
     prog.ops.iter().enumerate().map(|(i, (t, op))| format!("{} T{} {:?}", i, t, op)).collect()
 }
 
 fn main() {
-    let args = parse_args();
+    let mut args = parse_args();
+    // --replay <file>: re-execute the program and the scheduler decisions a replay file records
+    let replay_doc: Option<Value> = args.replay.as_ref().map(|f| serde_json::from_str(&std::fs::read_to_string(f).expect("replay file")).expect("replay json"));
+    if let Some(d) = &replay_doc {
+        args.prop = d["property"].as_str().unwrap_or("").to_string();
+        args.mode = d["mode"].as_str().unwrap_or("placed").to_string();
+        args.cancelable = d["config"].as_str() == Some("cancelable");
+        args.seed = d["seed"].as_u64().unwrap_or(0);
+        args.replay_dir = std::env::temp_dir().join("hx-replay-out").to_string_lossy().to_string();
+    }
     let t_start = Instant::now();
     let mut eng = Engine::start(args.max_threads, args.cancelable, Duration::from_secs(3600));
     let cats: HashSet<Cat> = props::cats_for(&args.prop, args.cancelable).into_iter().collect();
@@ -249,6 +272,7 @@ fn main() {
                 "threads": prog.nthreads,
                 "ops": ops_text(prog),
                 "decisions": ex.decisions.iter().map(|d| d.2).collect::<Vec<u8>>(),
+                "build": if cfg!(debug_assertions) { "debug" } else { "release" },
                 "violations": all,
                 "reports": reports,
                 "hooks": ex.hooks.iter().take(400).map(|h| format!("pos{} lt{} {:?}", h.pos, h.lt as isize, h.point)).collect::<Vec<_>>(),
@@ -273,7 +297,34 @@ fn main() {
         bad
     };
 
-    if args.mode == "templates" {
+    if let Some(d) = &replay_doc {
+        let k = d["program"].as_u64().unwrap_or(0) as usize;
+        let label = d["label"].as_str().unwrap_or("random").to_string();
+        let script: Vec<u8> = d["decisions"].as_array().map(|a| a.iter().map(|x| x.as_u64().unwrap_or(0) as u8).collect()).unwrap_or_default();
+        let mut ch = ScriptChooser::new(script);
+        if label == "random" {
+            let mut prng = Rng::new(args.seed.wrapping_mul(0x9E37_79B9_7F4A_7C15) ^ (k as u64).wrapping_mul(0xD1B5_4A32_D192_ED03));
+            let (prog, opts) = random_program(&args, k, &mut prng, mode);
+            let ex = run_program(&mut eng, &prog, mode, &mut ch, opts);
+            programs += 1;
+            handle(&prog, ex, mode == SchedMode::Placed, k, "random", &mut collect_base, &mut samples, &mut violations);
+        } else {
+            let list = templates::all(&args.prop, args.cancelable);
+            match list.iter().find(|t| t.name == label) {
+                Some(tpl) => {
+                    let mut opts = tpl.opts.clone();
+                    if tpl.mode == SchedMode::Placed {
+                        opts.cyield = 0;
+                    }
+                    let prog = (tpl.build)();
+                    let ex = run_program(&mut eng, &prog, tpl.mode, &mut ch, opts);
+                    programs += 1;
+                    handle(&prog, ex, false, k, tpl.name, &mut collect_base, &mut samples, &mut violations);
+                }
+                None => inconclusive.push(format!("replay: no template named {:?} for {}", label, args.prop)),
+            }
+        }
+    } else if args.mode == "templates" {
         let list = templates::all(&args.prop, args.cancelable);
         let share = args.time_limit / list.len().max(1) as f64;
         for (ti, tpl) in list.iter().enumerate() {
@@ -349,19 +400,11 @@ fn main() {
             }
             eprintln!("P {}", k);
             let mut prng = Rng::new(args.seed.wrapping_mul(0x9E37_79B9_7F4A_7C15) ^ (k as u64).wrapping_mul(0xD1B5_4A32_D192_ED03));
-            let pf = props::profile_for(&args.prop, args.cancelable, &mut prng);
-            let prog = if (args.prop == "C18" && k % 100 == 50) || (args.prop == "C17" && k % 500 == 250) {
-                templates::long_local_program(args.cancelable, &mut prng)
-            } else if args.prop == "C09" {
-                Gen::new(&mut prng, &pf, k as u64).generate_overload()
-            } else {
-                Gen::new(&mut prng, &pf, k as u64).generate()
-            };
+            let (prog, opts) = random_program(&args, k, &mut prng, mode);
             for (_, op) in &prog.ops {
                 *ops_by_kind.entry(op.kind_name().to_string()).or_insert(0) += 1;
             }
-            let mut ch = RandomChooser::new(prng.fork(7));
-            let opts = RunOpts { max_cycles: 4, max_steps: 60, park_in_stepped: prng.chance(1, 3), no_flush: mode == SchedMode::Stepped, ..RunOpts::default() };
+            let mut ch = RandomChooser::new(prng.fork(8));
             let ex = run_program(&mut eng, &prog, mode, &mut ch, opts);
             programs += 1;
             handle(&prog, ex, mode == SchedMode::Placed, k, "random", &mut collect_base, &mut samples, &mut violations);
